@@ -2388,8 +2388,10 @@ class VM:
         if isinstance(obj, JSArray):
             # Special handling for length property
             if key_str == "length":
-                new_len = int(to_number(value))
-                obj.length = new_len
+                new_len = self._to_number(value)
+                if not (0 <= new_len < 2**32 and new_len == int(new_len)):
+                    raise JSRangeError("Invalid array length")
+                obj.length = int(new_len)
                 return
             # Strict array mode: reject non-integer indices
             # Valid indices are integer strings in range [0, 2^32-2]
